@@ -674,6 +674,53 @@ fn eval_server(sess: &mut Session, ctx: &Ctx, linters: &Value, script: &[&str], 
     Ok(())
 }
 
+/// The switches at the JS API (`harper_wasm::Linter::{set_lint_config_from_json, lint,
+/// get_lint_config_as_json}`, built natively): under a user configuration the reported lints are
+/// harper-core's under curated defaults + the explicit choices; the configuration read back is the
+/// one that was set, also after linting (lint() fills in defaults temporarily and must restore).
+fn eval_js(sess: &mut Session, linters: &Value, texts: &[String]) {
+    use harper_core::linting::LintGroup;
+    use harper_core::{Document, FstDictionary};
+    use harper_wasm::{Dialect as WDialect, Language, Linter as WLinter};
+    let dict = FstDictionary::curated();
+    let user: LintGroupConfig = match serde_json::from_value(linters.clone()) {
+        Ok(c) => c,
+        Err(_) => return,
+    };
+    let expected = |text: &str| -> Vec<(usize, usize, String)> {
+        let doc = Document::new_plain_english(text, &dict);
+        let mut g = LintGroup::new_curated(dict.clone(), harper_core::Dialect::American).with_lint_config(user.clone());
+        g.config.fill_with_curated();
+        let mut l = g.lint(&doc);
+        harper_core::remove_overlaps(&mut l);
+        l.iter().map(|l| (l.span.start, l.span.end, l.message.clone())).collect()
+    };
+    let mut js = WLinter::new(WDialect::American);
+    let inp = json!({"kind": "js", "linters": linters, "texts": texts});
+    if let Err(e) = js.set_lint_config_from_json(linters.to_string()) {
+        sess.count(&format!("js:config-rejected:{}", e.chars().take(30).collect::<String>()));
+        return;
+    }
+    let set_as: Value = serde_json::from_str(&js.get_lint_config_as_json()).unwrap_or(Value::Null);
+    for (i, t) in texts.iter().enumerate() {
+        let Ok(out) = guarded(|| js.lint(t.clone(), Language::Plain)) else { return };
+        let got: Vec<(usize, usize, String)> = out.iter().map(|l| (l.span().start, l.span().end, l.message())).collect();
+        let want = expected(t);
+        sess.o();
+        if got != want {
+            sess.fail("js-switch-not-obeyed", format!("harper_wasm::Linter with linters = {}: lint #{} of {:?} reports {:?}, harper-core under that configuration {:?}", linters, i, t, got.iter().take(4).collect::<Vec<_>>(), want.iter().take(4).collect::<Vec<_>>()), inp.clone(), None);
+            return;
+        }
+        let now: Value = serde_json::from_str(&js.get_lint_config_as_json()).unwrap_or(Value::Null);
+        if now != set_as {
+            sess.fail("js-config-changed-by-lint", format!("get_lint_config_as_json after lint() differs from what it returned right after set_lint_config_from_json ({} keys vs {})", now.as_object().map(|o| o.len()).unwrap_or(0), set_as.as_object().map(|o| o.len()).unwrap_or(0)), inp.clone(), None);
+            return;
+        }
+    }
+    sess.nontrivial(&format!("js|{}", linters));
+    sess.count("origin:js-session");
+}
+
 fn run_server(sess: &mut Session, ctx: &Ctx, only: Option<(&Value, Vec<String>, Vec<String>)>) {
     let texts: Vec<String> = vec![
         "There is a tset here, and we bought 3 apples. this is very boring, and it is an test.".into(),
@@ -703,6 +750,7 @@ fn run_server(sess: &mut Session, ctx: &Ctx, only: Option<(&Value, Vec<String>, 
                 ok &= eval_server(sess, ctx, l, sc, &texts).is_ok();
                 sess.count("origin:server-session");
             }
+            eval_js(sess, l, &texts);
         }
     }
     sess.monitor("the in-process language server completed the C11 sessions", ok);
@@ -751,6 +799,10 @@ pub fn run(ctx: &Ctx) {
             "json" => {
                 let c: CfgMap = serde_json::from_value(v["config"].clone()).unwrap_or_default();
                 json_checks(&mut sess, &c, true);
+            }
+            "js" => {
+                let tx: Vec<String> = serde_json::from_value(v["texts"].clone()).unwrap_or_default();
+                eval_js(&mut sess, &v["linters"], &tx);
             }
             "server" => {
                 let sc: Vec<String> = serde_json::from_value(v["script"].clone()).unwrap_or_default();
@@ -877,7 +929,7 @@ pub fn run(ctx: &Ctx) {
     sess.add("hloc:chunk-contents-checked", hloc.checked);
     sess.add("hloc:chunk-contents-seen-again", hloc.repeated);
     sess.finish(
-        "corpus; exhaustive: merge_from over all pairs of configurations on 3 keys × {absent,null,off,on}, every single operation on all 64 such configurations × 4 keys, fill_with_curated of all 64 user configurations over (curated-on rule, curated-off rule, unknown key), merge orders over 16³ triples; random op sequences / merges / fills with the real rule names and hostile unknown keys; serde_json round trip and Config::from_lsp_config; lint_is_combination: 1–3 rule-test sentences (plain / Markdown), every rule run alone on new groups, ≥10 combined configurations per document (all-on, curated+user, firing-only, sparse, dense, toggle pairs, partitions, unknown keys); the switches at the server: 5 user configurations × 4 scripts of didOpen / didChange / codeAction / didClose through the real Backend, every publication = harper-core's lints under that configuration. Non-trivial = op sequences of >1 op, merges with a Some value, documents on which ≥2 rules fire.",
+        "corpus; exhaustive: merge_from over all pairs of configurations on 3 keys × {absent,null,off,on}, every single operation on all 64 such configurations × 4 keys, fill_with_curated of all 64 user configurations over (curated-on rule, curated-off rule, unknown key), merge orders over 16³ triples; random op sequences / merges / fills with the real rule names and hostile unknown keys; serde_json round trip and Config::from_lsp_config; lint_is_combination: 1–3 rule-test sentences (plain / Markdown), every rule run alone on new groups, ≥10 combined configurations per document (all-on, curated+user, firing-only, sparse, dense, toggle pairs, partitions, unknown keys); the switches at the server: 5 user configurations × 4 scripts of didOpen / didChange / codeAction / didClose through the real Backend, every publication = harper-core's lints under that configuration; the same configurations through harper_wasm::Linter (set_lint_config_from_json → lint ×3 → get_lint_config_as_json unchanged). Non-trivial = op sequences of >1 op, merges with a Some value, documents on which ≥2 rules fire.",
         true,
         json!({"switch_names": all.len(), "names_in_both_rule_maps": shared, "whole_document_rules": names.doc.len(), "pattern_rules": names.pat.len(), "cache_capacity": cap, "cache_capacity_from_source": cap_ok,
                "exhaustive_scope": "merge: 64×64 configurations on 3 keys; single ops: 64 configurations × 4 keys × 6 ops; fill: 64 user configurations; merge order: 16×16×16"}),
